@@ -100,3 +100,21 @@ Fixpoint run_trace (s : State) (h : list Op) : list (Op * Z * State) :=
   end.
 Definition run (s : State) (h : list Op) : State :=
   fold_left (fun s o => fst (step s o)) h s.
+
+(* the model's error / panic code of an operation (0 when it succeeds): used
+   only to label findings, never compared with the implementation *)
+Definition res_code {A} (r : Res A) : Z := match r with Ok _ _ => 0 | Err e _ => e | Panic e _ => e end.
+Definition step_err (s : State) (o : Op) : Z :=
+  match o with
+  | OEndBlock => res_code (end_blocker s)
+  | ODelegate d v dn a => res_code (msg_delegate d v dn a s)
+  | OUndelegate d v dn a => res_code (msg_undelegate d v dn a s)
+  | ORedelegate d v1 v2 dn a => res_code (msg_redelegate d v1 v2 dn a s)
+  | OClaim d v dn => res_code (msg_claim d v dn s)
+  | OCreateAlliance m => res_code (msg_create_alliance m s)
+  | OUpdateAlliance m => res_code (msg_update_alliance m s)
+  | ODeleteAlliance au dn => res_code (msg_delete_alliance au dn s)
+  | OUpdateParams au dl iv l => res_code (msg_update_params au dl iv l s)
+  | OHookSlash v f => res_code (hook_slash v f s)
+  | _ => 0
+  end.
